@@ -1,4 +1,4 @@
-CONSTANTS MaxTrees = 1 SimDepth = 99 Deep = TRUE
+CONSTANTS MaxTrees = 1 SimDepth = 99 Deep = TRUE CancelFirst = 0
 INIT Init
 NEXT Next
 INVARIANTS OwnOnly
